@@ -298,6 +298,16 @@ pub fn seq_oracle(case: &SeqCase) -> Verdict {
             }
             Err(e) => vfail!("conforming-header-rejected", "message {mi}: {e:?}; header refs {:?}; bytes {}", refs, hex(&bytes[..bytes.len().min(120)])),
         }
+        // bytes after control + payload are an error, not ignored (checked on a scratch copy of the cache)
+        if pv.is_some() && mi % 3 == 0 {
+            let mut with = bytes.clone();
+            with.extend_from_slice(&[0x6a, 0x01]);
+            let mut scratch = cache.clone();
+            match erltf::decode_with_atom_cache(&with, &mut scratch) {
+                Err(erltf::DecodeError::TrailingData(2)) => {}
+                other => vfail!("trailing-data-not-reported", "message {mi} + 2 junk bytes: {:?}", other.map(|(c, _)| denote(&c).render())),
+            }
+        }
     }
     let nontrivial = reused > 0 || overwrote > 0;
     let info = if nontrivial { CaseInfo::nt(fp(&format!("{:?}", case))) } else { CaseInfo::trivial() };
